@@ -169,6 +169,63 @@ Theorem C18_merge_refuted_on_original : forall outer t1 t2 r,
 Proof. reflexivity. Qed.
 Print Assumptions C18_merge_refuted_on_original.
 
+(* ---- multimerge, keys that repeat inside a table (many-to-many join) --------------------------------- *)
+(* `multimerge_m` drops the unique-key hypothesis.  For 1 or more tables, on the index or a column, with or without
+   suffixes: the call returns; the columns are the tables' (suffixed) columns in order; a key is in the result iff
+   some table (outer) / every table (inner) has it; and the rows the result holds for a key are the PRODUCT of the
+   tables' rows for that key, in lexicographic order, where in an outer join a table without the key contributes one
+   all-missing row (`rows_or_pad`).  Together with `C18_rows_multiset` this fixes the multiset of (key, row) pairs of
+   the result, which is what the harness compares (pandas' row order is an implementation detail). *)
+Theorem C18_merge_rows : forall (on_index outer : bool) (sufs : list str) (ts : list ktable),
+  ts <> [] -> (sufs = [] \/ length sufs = length ts) ->
+  exists res, multimerge_m gen_c18_facts on_index sufs outer ts = Ok res /\
+    kcols res = concat (map kcols (suffixed sufs ts)) /\
+    (forall k, In k (keys res) <->
+       if outer then exists t, In t ts /\ In k (keys t) else forall t, In t ts -> In k (keys t)) /\
+    (forall k, In k (keys res) -> rows_of k res = nprod (rows_or_pad k) ts) /\
+    (forall k, ~ In k (keys res) -> rows_of k res = []).
+Proof.
+  intros oi outer sufs ts NE L.
+  rewrite multimerge_m_kw by reflexivity.
+  assert (E1 : map keys (suffixed sufs ts) = map keys ts /\
+               forall k, nprod (rows_or_pad k) (suffixed sufs ts) = nprod (rows_or_pad k) ts).
+  { unfold suffixed. destruct sufs as [|s0 sr]; [auto|]. destruct L as [L|L]; [discriminate|].
+    split; [|intros k].
+    - rewrite map_map, (map_ext _ (fun p => keys (fst p)) keys_add_suffix), <- (map_map fst), map_fst_combine; auto.
+    - rewrite (nprod_map _ (rows_or_pad k) add_suffix _ (rows_or_pad_add_suffix k)), map_fst_combine; auto. }
+  destruct E1 as [EK ER].
+  destruct (reduce_join_m_spec outer (suffixed sufs ts)) as [res [R [S1 [S3 [S4 S5]]]]].
+  - intros E. apply NE. apply (f_equal (map keys)) in E. rewrite EK in E. destruct ts; [reflexivity|discriminate].
+  - exists res. split; [exact R|]. split; [exact S1|]. split; [|split; [|exact S5]].
+    + intros k. rewrite S3. destruct outer.
+      * split; intros [t [Ht Hk]].
+        -- apply (in_map keys) in Ht. rewrite EK in Ht. apply in_map_iff in Ht. destruct Ht as [t0 [E Ht0]].
+           exists t0. split; auto. now rewrite E.
+        -- apply (in_map keys) in Ht. rewrite <- EK in Ht. apply in_map_iff in Ht. destruct Ht as [t0 [E Ht0]].
+           exists t0. split; auto. now rewrite E.
+      * split; intros H t Ht.
+        -- apply (in_map keys) in Ht. rewrite <- EK in Ht. apply in_map_iff in Ht. destruct Ht as [t0 [E Ht0]].
+           rewrite <- E. now apply H.
+        -- apply (in_map keys) in Ht. rewrite EK in Ht. apply in_map_iff in Ht. destruct Ht as [t0 [E Ht0]].
+           rewrite <- E. now apply H.
+    + intros k H. rewrite (S4 k H). apply ER.
+Qed.
+Print Assumptions C18_merge_rows.
+
+(* the per-key row lists determine the multiset of (key, row) pairs of any table *)
+Theorem C18_rows_multiset : forall (t : ktable) (k : str) (row : list cell),
+  count_occ krow_dec (krows t) (k, row) = count_occ row_dec (rows_of k t) row.
+Proof. exact rows_of_count. Qed.
+Print Assumptions C18_rows_multiset.
+
+(* on tables with unique keys the many-to-many model coincides with the unique-key model of C18_merge_keys, so the
+   oracle may serve `multimerge_m` for every case without leaving the older theorem behind *)
+Theorem C18_merge_m_unique : forall F (on_index outer : bool) (sufs : list str) (ts : list ktable),
+  Forall (fun t => NoDup (keys t)) ts ->
+  multimerge_m F on_index sufs outer ts = multimerge F on_index sufs outer ts.
+Proof. intros. now apply multimerge_m_unique. Qed.
+Print Assumptions C18_merge_m_unique.
+
 (* ---- non-vacuity ------------------------------------------------------------------------------------ *)
 Example C18_ex_predicates :
   isvalidcdr3 gen_c18_facts (PStr [67; 65; 83; 83; 70]%N) = Ok true /\          (* "CASSF" *)
@@ -195,3 +252,19 @@ Example C18_ex_merge :
   multimerge gen_c18_facts false [[49]%N; [50]%N] false [a; b] =
     Ok ([[118; 95; 49]%N; [119; 95; 50]%N], [([98]%N, [Some [50%N]; Some [51%N]])]).
 Proof. split; vm_compute; reflexivity. Qed.
+
+(* many-to-many: key "a" twice in both tables gives 2 x 2 rows, key "b" once in each gives 1, key "c" only in the
+   second table is padded (outer) / dropped (inner) *)
+Example C18_ex_merge_many :
+  let a : ktable := ([[118]%N], [([97]%N, [Some [49%N]]); ([97]%N, [Some [50%N]]); ([98]%N, [Some [51%N]])]) in
+  let b : ktable := ([[119]%N], [([97]%N, [Some [52%N]]); ([99]%N, [None]); ([97]%N, [Some [53%N]]); ([98]%N, [Some [54%N]])]) in
+  multimerge_m gen_c18_facts true [[49]%N; [50]%N] true [a; b] =
+    Ok ([[118; 95; 49]%N; [119; 95; 50]%N],
+        [([97]%N, [Some [49%N]; Some [52%N]]); ([97]%N, [Some [49%N]; Some [53%N]]);
+         ([97]%N, [Some [50%N]; Some [52%N]]); ([97]%N, [Some [50%N]; Some [53%N]]);
+         ([98]%N, [Some [51%N]; Some [54%N]]); ([99]%N, [None; None])]) /\
+  (exists res, multimerge_m gen_c18_facts false [] false [a; b] = Ok res /\ length (krows res) = 5) /\
+  nprod (rows_or_pad [97]%N) [a; b] =
+    [[Some [49%N]; Some [52%N]]; [Some [49%N]; Some [53%N]]; [Some [50%N]; Some [52%N]]; [Some [50%N]; Some [53%N]]] /\
+  nprod (rows_or_pad [99]%N) [a; b] = [[None; None]].
+Proof. repeat split; try (eexists; split); vm_compute; reflexivity. Qed.
